@@ -227,7 +227,7 @@ def run_case(case, bound=None, schedule=None, keep=False, check_plan=None, workd
                             sim.resume(u)
                             if poke:
                                 _poke(sim, tr)
-                sim.monitor.collate_events()
+                # no extra collate_events() here: what the user sees after the last resume()
                 res['df'] = sim.monitor.df
                 res['tasks'] = sim._generate_final_task_data()
             res['events'] = sim.monitor.events
